@@ -613,11 +613,13 @@ impl CommandAnalyzer {
                 // the same name in another module of the file is not the command
                 syn::Item::Fn(func)
                     if func.sig.ident.unraw() == function_name
+                        // the attribute the command parser goes by: #[tauri::command] or
+                        // #[command], not the command macro of another crate
                         && func.attrs.iter().any(|attr| {
-                            attr.path()
-                                .segments
-                                .last()
-                                .is_some_and(|segment| segment.ident == "command")
+                            attr.path().is_ident("command")
+                                || (attr.path().segments.len() == 2
+                                    && attr.path().segments[0].ident == "tauri"
+                                    && attr.path().segments[1].ident == "command")
                         }) =>
                 {
                     return Some(func);
